@@ -5,7 +5,7 @@ use crate::engine::{from_case, to_case, Outcome, Plan, Prop, Tier};
 use crate::memsrc::{MemSource, Variant};
 use crate::trees::{self, ArchOpts, Model, TreeSpec};
 use assets_manager::source::{DirEntry, FileContent, FileSystem, Source, Tar, Zip};
-use assets_manager::{loader::Loader, Asset, AssetCache, BoxedError};
+use assets_manager::{asset::DirLoadable, loader::Loader, AnyCache, Asset, AssetCache, BoxedError, Compound, SharedString};
 use proptest::prelude::*;
 use serde::{Deserialize, Serialize};
 use serde_json::Value;
@@ -34,6 +34,41 @@ elem!(D1, &["txt"]);
 elem!(D2, &["txt", "x"]);
 elem!(D3, &[""]);
 elem!(D4, &["bin", "txt"]);
+
+/// A hand-written DirLoadable: its ids are the `txt` files, and its recursion skips the directories whose own
+/// name starts with `a` or `d` (`sub_directories` is overridden). `Arc<Pruned>` must list the same subtree.
+pub struct Pruned(#[allow(dead_code)] usize);
+fn pruned_name(dir_id: &str) -> bool {
+    let last = dir_id.rsplit('.').next().unwrap_or("");
+    last.starts_with('a') || last.starts_with('d')
+}
+impl Compound for Pruned {
+    fn load(cache: AnyCache, id: &SharedString) -> Result<Self, BoxedError> {
+        let source = cache.raw_source();
+        let n = source.read(id, "txt")?.as_ref().len();
+        Ok(Pruned(n))
+    }
+}
+impl DirLoadable for Pruned {
+    fn select_ids(cache: AnyCache, id: &SharedString) -> io::Result<Vec<SharedString>> {
+        let mut ids = Vec::new();
+        cache.raw_source().read_dir(id, &mut |e| {
+            if let DirEntry::File(i, "txt") = e {
+                ids.push(i.into());
+            }
+        })?;
+        Ok(ids)
+    }
+    fn sub_directories(cache: AnyCache, id: &SharedString, mut f: impl FnMut(&str)) -> io::Result<()> {
+        cache.raw_source().read_dir(id, &mut |e| {
+            if let DirEntry::Directory(d) = e {
+                if !pruned_name(d) {
+                    f(d);
+                }
+            }
+        })
+    }
+}
 
 /// A source in which some directories (and everything below them) cannot be listed.
 pub struct Deny<S> {
@@ -109,6 +144,16 @@ impl Expect {
         }
         let set: BTreeSet<String> = m.files.keys().filter(|(id, ext)| trees::parent_of(id) == Some(d) && exts.contains(&ext.as_str())).map(|(id, _)| id.clone()).collect();
         Some(set.into_iter().collect())
+    }
+    /// the subtree a `Pruned` recursion visits
+    fn rec_ids_pruned(&self, m: &Model, d: &str) -> Option<BTreeSet<String>> {
+        let mut out: BTreeSet<String> = self.dir_ids(m, d, &["txt"])?.into_iter().collect();
+        for sub in m.dirs.iter().filter(|s| !s.is_empty() && trees::parent_of(s) == Some(d) && !pruned_name(s)) {
+            if let Some(more) = self.rec_ids_pruned(m, sub) {
+                out.extend(more);
+            }
+        }
+        Some(out)
     }
     fn rec_ids(&self, m: &Model, d: &str, exts: &[&str]) -> Option<BTreeSet<String>> {
         let mut out: BTreeSet<String> = self.dir_ids(m, d, exts)?.into_iter().collect();
@@ -225,12 +270,42 @@ fn run_typed<S: Source, T: Asset>(cache: &AssetCache<S>, m: &Model, c: &Case, ex
 
 fn run_on<S: Source>(src: S, m: &Model, c: &Case, exp: &Expect, out: &mut Outcome, label: &str, flags: &mut (bool, bool, bool)) {
     let cache = AssetCache::without_hot_reloading(Deny { inner: src, denied: exp.denied.clone() });
-    match c.elem % 5 {
+    match c.elem % 6 {
+        5 => run_pruned(&cache, m, c, exp, out, label),
         0 => run_typed::<_, D1>(&cache, m, c, exp, out, label, flags),
         1 => run_typed::<_, D2>(&cache, m, c, exp, out, label, flags),
         2 => run_typed::<_, D3>(&cache, m, c, exp, out, label, flags),
         3 => run_typed::<_, D4>(&cache, m, c, exp, out, label, flags),
         _ => run_arc(&cache, m, c, exp, out, label),
+    }
+}
+
+/// A custom DirLoadable that overrides `sub_directories`, plain and wrapped in Arc.
+fn run_pruned<S: Source>(cache: &AssetCache<S>, m: &Model, c: &Case, exp: &Expect, out: &mut Outcome, label: &str) {
+    let dirs: Vec<String> = m.dirs.iter().cloned().collect();
+    for q in c.queries.iter().chain([0u8].iter()) {
+        let d = &dirs[*q as usize % dirs.len()];
+        let e = exp.rec_ids_pruned(m, d);
+        let plain = cache.load_rec_dir::<Pruned>(d).map(|h| h.read().ids().map(|s| s.to_string()).collect::<BTreeSet<String>>()).ok();
+        let arc = cache.load_rec_dir::<Arc<Pruned>>(d).map(|h| h.read().ids().map(|s| s.to_string()).collect::<BTreeSet<String>>()).ok();
+        if plain != e {
+            out.fail(format!("rec-ids-mismatch:{label}"), format!("[{label}] load_rec_dir::<Pruned>({d:?}) (a DirLoadable whose sub_directories skips directories named a*/d*) lists {plain:?}, the subtree it visits holds {e:?}"));
+            return;
+        }
+        if arc != e {
+            out.fail(format!("rec-ids-mismatch-arc:{label}"), format!("[{label}] load_rec_dir::<Arc<Pruned>>({d:?}) lists {arc:?} but load_rec_dir::<Pruned> lists {e:?}: the Arc wrapper must visit the same sub-directories"));
+            return;
+        }
+        if let Some(h) = cache.get_cached::<assets_manager::RecursiveDirectory<Arc<Pruned>>>(d) {
+            let n = h.read().iter(cache).filter(|r| r.is_ok()).count();
+            if Some(n) != e.as_ref().map(|e| e.len()) {
+                out.fail(format!("iter-mismatch:{label}"), format!("[{label}] iter over Arc<Pruned> elements of {d:?} loads {n} ids, expected {:?}", e.as_ref().map(|e| e.len())));
+                return;
+            }
+        }
+    }
+    if m.dirs.iter().any(|d| !d.is_empty() && pruned_name(d)) {
+        out.label("custom-sub-directories-prunes");
     }
 }
 
@@ -286,7 +361,7 @@ impl Prop for C11 {
     }
 
     fn rule(&self) -> String {
-        "cases = (C04's generated tree and archive options; source kind FileSystem / Zip / Tar / Embedded (macro expansion code) / in-memory; element type with extensions [txt] | [txt, x] | [\"\"] | [bin, txt] | Arc of the second; \
+        "cases = (C04's generated tree and archive options; source kind FileSystem / Zip / Tar / Embedded (macro expansion code) / in-memory; element type with extensions [txt] | [txt, x] | [\"\"] | [bin, txt] | Arc of the second | a hand-written DirLoadable whose sub_directories skips directories named a*/d*, plain and in Arc (both must list the same subtree); \
          a set of unreadable directories (read_dir fails for them and everything below); a subset of ids loaded beforehand; directories to query incl. the root and missing ones). \
          Oracle from the tree: load_dir(d).ids() is the sorted duplicate-free list of stems of the files directly in d carrying one of the extensions; load_rec_dir(d).ids() as a set is the union over d and the readable directories below, without duplicates; \
          iter yields one loaded handle per id; iter_cached yields exactly the listed ids that are cached; missing or unreadable directories are errors; unreadable sub-directories do not hide their siblings. \
@@ -312,7 +387,7 @@ impl Prop for C11 {
             trees::tree_strategy(16),
             trees::arch_opts_strategy(),
             prop_oneof![Just(SrcKind::Fs), Just(SrcKind::Zip), Just(SrcKind::Tar), Just(SrcKind::Embedded), Just(SrcKind::Mem)],
-            0u8..5,
+            0u8..6,
             prop_oneof![2 => Just(Vec::new()), 1 => prop::collection::vec(any::<u8>(), 1..3)],
             any::<u32>(),
             prop::collection::vec(any::<u8>(), 1..5),
@@ -381,11 +456,11 @@ impl Prop for C11 {
             out.label("unreadable-directory");
         }
         out.label(format!("src:{:?}", c.src));
-        out.label(format!("elem:{}", ["txt", "txt+x", "empty-ext", "bin+txt", "arc"][(c.elem % 5) as usize]));
+        out.label(format!("elem:{}", ["txt", "txt+x", "empty-ext", "bin+txt", "arc", "custom-dirloadable"][(c.elem % 6) as usize]));
         out
     }
 
     fn required_labels(&self) -> Vec<&'static str> {
-        vec!["stem-with-two-matching-extensions", "recursion>=2-levels", "unreadable-directory", "src:Embedded", "src:Zip", "elem:arc"]
+        vec!["stem-with-two-matching-extensions", "recursion>=2-levels", "unreadable-directory", "src:Embedded", "src:Zip", "elem:arc", "elem:custom-dirloadable", "custom-sub-directories-prunes"]
     }
 }
